@@ -73,8 +73,8 @@ example : WF defaultEnv exVar := by
     · trivial
     · show classify (sp "n") = .ID; decide
   · intro a ha; simp at ha; rcases ha with rfl | rfl
-    · exact ⟨by decide, by decide, by decide, by decide⟩
-    · exact ⟨by decide, by decide, by decide, by decide⟩
+    · exact ⟨by decide, by decide, by decide, by simp [Bal, tk]⟩
+    · exact ⟨by decide, by decide, by decide, by simp [Bal, tk]⟩
   · simp [AttrsOrdered]; decide
 
 open Shroud.Gen.DeclTables in
